@@ -125,7 +125,7 @@ def run(tier):
     njump = 60 if not full else 1500
     for k in range(njump):
         steps = []
-        pos_choices = [0, 1, 19, 5979, 5980, 5999, 6000, 6019, 6020, 6021, 11999, 12040, 20000, 40000, 100000, 250000]
+        pos_choices = [0, 0, 1, 19, 5979, 5980, 5999, 6000, 6019, 6020, 6021, 11999, 12040, 20000, 40000, 100000, 250000]
         for _ in range(rnd.randrange(2, 7)):
             off = rnd.choice(pos_choices) if rnd.random() < 0.7 else rnd.randrange(0, 300000)
             n11 = rnd.choice([0, 1, 5, 600, 1200])
@@ -135,13 +135,19 @@ def run(tier):
             hx = common.hx("\n".join(["nop11"] * n11 + ["mov rax, 0x1122334455667788", "ret"]))
             end = off + 11 * n11 + 11
             cmds += ["setoff 0 %d" % off, "setoff 1 %d" % off, "asm 0 %s" % hx, "asm 1 %s" % hx, "getoff 0", "getoff 1", "sum 0 %d %d" % (off, end), "sum 1 %d %d" % (off, end)]
+        # finally every region written by a step and not overwritten by a later one is looked at AGAIN: growth (or any other
+        # bookkeeping triggered by a later call, e.g. one that starts at offset 0) must have preserved it
+        regions = [(off, off + 11 * n11 + 11) for off, n11 in steps]
+        keep = [r for i, r in enumerate(regions) if not any(r[0] < q[1] and q[0] < r[1] for q in regions[i + 1:])]
+        for lo, hi in keep:
+            cmds += ["sum 0 %d %d" % (lo, hi), "sum 1 %d %d" % (lo, hi)]
         cmds.append("wrapreport")
         jcases.append(cmds)
-        jmeta.append(steps)
+        jmeta.append((steps, keep))
     jres = common.run_cases(binary, jcases, tag="c08j", per_case_timeout=60)
     stats["offset_jump_cases"] = len(jcases)
     stats["offset_jump_calls"] = 0
-    for steps, cmds, r in zip(jmeta, jcases, jres):
+    for (steps, keep), cmds, r in zip(jmeta, jcases, jres):
         v.count()
         case = {"key": "offsets %s" % steps, "fam": "offset_jump", "script": cmds}
         if r["crash"]:
@@ -163,6 +169,12 @@ def run(tier):
             if bad:
                 break
             stats["offset_jump_calls"] += 1
+        if not bad:
+            b = 4 + 8 * len(steps)
+            for i, (lo, hi) in enumerate(keep):
+                if recs[b + 2 * i].split()[1] != recs[b + 2 * i + 1].split()[1]:
+                    bad = ("earlier-code-lost", "region [%d,%d) written by an earlier step differs from the reference at the end of the sequence" % (lo, hi))
+                    break
         if bad:
             v.violation(case, bad[0], bad[1])
         else:
